@@ -361,7 +361,7 @@ theorem crash_consistent_created {cfg : Cfg} (hg : cfg.Good) (hc : cfg.manifests
     ∃ r, recoverR cfg d' = .ok r ∧ ∃ sel, Consistent c b.st r sel := by
   obtain ⟨ch, rfl⟩ := hi
   have hinv : BigInv cfg b := by
-    refine bigInv_run (fun s d a s' d' h hp hs => inv_step hg h hp hs) ?_ (bigInv_init0 cfg) xs hal hr
+    refine bigInv_run (fun s d a s' d' h hp hs => invL_step hg h hp hs) ?_ (bigInv_init0 cfg) xs hal hr
     intro pc o gm hq _ ho
     subst ho
     simp [CPc.noFault] at hq
@@ -529,7 +529,7 @@ theorem crash_consistent_bytes_created {cfg : Cfg} (hg : cfg.Good) (hc : cfg.man
     {c : UCmp} (hl : LawfulUCmp c) (hw : ∀ g ∈ issuedGrps b.st, g.wf) :
     ∃ r sel, recoverBytes cfg x.cmpName bd' = .ok r.onDisk ∧ Consistent c b.st r sel := by
   have hinv : BigInv cfg b := by
-    refine bigInv_run (fun s d a s' d' h hp hs => inv_step hg h hp hs) ?_ (bigInv_init0 cfg) xs hal hr
+    refine bigInv_run (fun s d a s' d' h hp hs => invL_step hg h hp hs) ?_ (bigInv_init0 cfg) xs hal hr
     intro pc o gm hq _ ho
     subst ho
     simp [CPc.noFault] at hq
@@ -542,7 +542,7 @@ theorem crash_consistent_bytes_created {cfg : Cfg} (hg : cfg.Good) (hc : cfg.man
       rcases h4 with h4 | ⟨f, h4⟩ <;> rw [h4]
       · exact List.Pairwise.nil
       · exact List.pairwise_singleton _ _
-    | db s d => exact ⟨(hinv : Inv cfg s d).disk.mnodup, sorted_nodup (hinv : Inv cfg s d).disk.jsorted⟩
+    | db s d => exact ⟨(hinv : InvL cfg s d).1.disk.mnodup, sorted_nodup (hinv : InvL cfg s d).1.disk.jsorted⟩
   obtain ⟨d', ⟨ch, rfl⟩, e, hchk⟩ := crash_image_decodes x hx b.disk hd hnd.1 hnd.2 hi
   obtain ⟨r, hrec, hgood⟩ := hinv.open_ok hg.noTrace hc ch
   obtain ⟨sel, hsel⟩ := consistent_of_good hl hw hgood
